@@ -36,7 +36,7 @@ def universes():
     return res
 
 
-KIND_PROP = {"idx": "C15", "lim": "C33", "read": "C11", "truth3": "C23", "cmp": "C23", "arith": "C23", "order": "C20", "agg": "C21", "err": "C22", "part": "C19"}
+KIND_PROP = {"upd": "C12", "idx": "C15", "lim": "C33", "read": "C11", "truth3": "C23", "cmp": "C23", "arith": "C23", "order": "C20", "agg": "C21", "err": "C22", "part": "C19"}
 
 
 def cypher_sessions(tier, seed, u):
@@ -46,6 +46,7 @@ def cypher_sessions(tier, seed, u):
     ss += cyast.read_sessions(tier, seed * 19 + 5)
     ss += cyast.index_sessions(tier, seed * 23 + 6)
     ss += cyast.limit_sessions(tier, seed * 29 + 7)
+    ss += cyast.update_sessions(tier, seed * 31 + 8)
     return ss
 
 
@@ -76,6 +77,8 @@ def corrupt_for_selftest(lines, dirty_lines=()):
                 rows[0][1] = ["int", {"s": 1, "m": [77]}]
             elif k in ("read", "idx"):
                 rows.append(rows[0])
+            elif k == "upd" and e.get("graph", {}).get("nodes"):
+                e["graph"]["nodes"][0]["labels"] = e["graph"]["nodes"][0]["labels"] + ["Zz"]
             elif k == "lim" and e.get("resl") and any(r["out"] == "rows" and r["canon"] for r in e["resl"]):
                 r = next(r for r in e["resl"] if r["out"] == "rows" and r["canon"])
                 r["canon"] = r["canon"][1:]
@@ -134,6 +137,9 @@ def cypher_family(tier, seed, sessions=None, tag="main"):
                     nonempty[k] = nonempty.get(k, 0) + 1
             elif k == "err":
                 if e["res"]["out"] == "err":
+                    nonempty[k] = nonempty.get(k, 0) + 1
+            elif k == "upd":
+                if e["res"]["out"] == "rows":
                     nonempty[k] = nonempty.get(k, 0) + 1
             elif k == "lim":
                 outs = {r["out"] for r in e.get("resl", [])}
@@ -357,3 +363,14 @@ def c33(tier, seed, replay):
                    "of the soft timeout is judged with a slack of 1.5 s",
                    "14 queries with large intermediates x 5 limit settings each (rows, collection items, apply rows, timeout); a limited "
                    "run must equal the unlimited rows or fail with a resource-limit error whose observed count is <= limit + 1")
+
+
+@reg("C12")
+def c12(tier, seed, replay):
+    return cy_prop("C12", tier, seed, replay, ["upd"],
+                   "graphs are compared up to node identity (bags of node signatures and of relationship signatures with endpoint "
+                   "signatures); no parallel relationships and no compaction in these sessions (storage-level findings are judged by "
+                   "C04-C06); change counts are not judged beyond MERGE idempotence",
+                   "seeded sequences of CREATE / MERGE (+ON CREATE/ON MATCH, each MERGE repeated) / SET (property, = map, += map, labels) "
+                   "/ REMOVE / DELETE / DETACH DELETE after MATCH, OPTIONAL MATCH and UNWIND prefixes; after every statement the dumped "
+                   "graph must equal CypherUpdate.ApplyStmt of the previous dump")
